@@ -179,7 +179,7 @@ func Gen(seed uint64, tier string) any {
 		case x < 50:
 			ev.Fault, ev.Region, ev.Frac, ev.Bit = "flip", core.Pick(r, regions...), r.IntN(1000), r.IntN(8)
 		case x < 57:
-			ev.Fault = core.Pick(r, "unsign", "duptsig", "trunc")
+			ev.Fault = core.Pick(r, "unsign", "duptsig", "trunc", "sweep")
 			ev.Frac = r.IntN(1000)
 		case x < 67:
 			ev.Prior = core.Pick(r, "none", "other", "stale")
@@ -471,6 +471,17 @@ func runBare(sc *Scenario, res *core.Result, verbose bool) {
 			b = b[:k:k]
 			res.Bump("fault.truncated")
 		}
+		if ev.Fault == "sweep" {
+			// every single-bit alteration and every truncation of this message
+			// (exhaustive for the message; skipped for large ones)
+			if len(sm.wire) <= 700 {
+				if !sweepAll(res, sm, now, ev.Msg) {
+					return
+				}
+				res.Bump("fault.exhaustive_sweep")
+			}
+			continue
+		}
 		vprior := sm.prior
 		switch ev.Prior {
 		case "none":
@@ -544,6 +555,51 @@ func runBare(sc *Scenario, res *core.Result, verbose bool) {
 	}
 	res.Nontrivial = true
 	res.Class = fmt.Sprintf("bare/%s/chain=%d/skew=%s", strings.ToLower(sc.Alg), len(chain), skewClass(sc))
+}
+
+// sweepAll compares library and reference verdicts for every one-bit
+// alteration and every proper prefix of one signed message, with the
+// verifier's arguments as the signer used them.
+func sweepAll(res *core.Result, sm signedMsg, now uint64, idx int) bool {
+	pb, _ := hex.DecodeString(sm.prior)
+	try := func(b []byte, what string) bool {
+		var keyOnWire string
+		if t, _, ok := oracle.FindTSIG(b); ok {
+			keyOnWire = t.KeyName
+		}
+		v := oracle.VerifyTSIG(b, map[string]string{keyOnWire: secretGood}, pb, sm.timers, now)
+		lerr, pan := verify(append([]byte(nil), b...), secretGood, sm.prior, sm.timers)
+		if pan != "" {
+			res.Fail("V1", "verify-panic", "TsigVerify panicked on %s of message %d: %s", what, idx, pan)
+			return false
+		}
+		if !v.Judgable {
+			return true
+		}
+		res.Bump("oracle.V1_sweep_positions")
+		if v.Valid && lerr != nil {
+			res.Fail("G1", "valid-rejected:"+classify(lerr), "TsigVerify rejected (%v) %s of message %d although the result is still RFC 8945-valid", lerr, what, idx)
+			return false
+		}
+		if !v.Valid && lerr == nil {
+			res.Fail("V1", "invalid-accepted:"+strings.ReplaceAll(v.Reason, " ", "-"), "TsigVerify accepted %s of message %d (%d octets): %s", what, idx, len(sm.wire), v.Reason)
+			return false
+		}
+		return true
+	}
+	for p := 0; p < 8*len(sm.wire); p++ {
+		b := append([]byte(nil), sm.wire...)
+		b[p/8] ^= 1 << uint(p%8)
+		if !try(b, fmt.Sprintf("bit %d of octet %d flipped", p%8, p/8)) {
+			return false
+		}
+	}
+	for k := 0; k < len(sm.wire); k++ {
+		if !try(append([]byte(nil), sm.wire[:k]...), fmt.Sprintf("the first %d octets", k)) {
+			return false
+		}
+	}
+	return true
 }
 
 func skewClass(sc *Scenario) string {
